@@ -32,3 +32,16 @@ void inst_tuple_mirror(const Mir2& m2, const Mir3& m3, Vec2& v2, Vec3& v3, VecS&
   m2.gather(buf, v2); m2.scatter_axpy(v2, buf); (void)m2.buffer_size(v2);
   m3.gather(buf, v3); m3.scatter_axpy(v3, buf); (void)m3.buffer_size(v3);
 }
+
+// two-pass dof mirror assembly (rule E3.mirror-two-pass): count / fill recursion over the entity dimensions
+#include <kernel/geometry/conformal_mesh.hpp>
+#include <kernel/geometry/mesh_part.hpp>
+#include <kernel/trafo/standard/mapping.hpp>
+#include <kernel/space/lagrange1/element.hpp>
+#include <kernel/assembly/mirror_assembler.hpp>
+typedef Geometry::ConformalMesh<Shape::Hypercube<2>> MeshQ2;
+typedef Space::Lagrange1::Element<Trafo::Standard::Mapping<MeshQ2>> SpaceQ1;
+void inst_mirror_asm(Mir& mirror, const SpaceQ1& space, const Geometry::MeshPart<MeshQ2>& halo)
+{
+  Assembly::MirrorAssembler::assemble_mirror(mirror, space, halo);
+}
